@@ -16,6 +16,10 @@ func main() {
 		err = cmdReplay(os.Args[2:])
 	case "upgrades":
 		err = cmdUpgrades(os.Args[2:])
+	case "replicas":
+		err = cmdReplicas(os.Args[2:])
+	case "replica-child":
+		err = cmdReplicaChild()
 	case "node":
 		err = cmdNode(os.Args[2:])
 	default:
